@@ -60,6 +60,7 @@ func (c06) Gen(r *rand.Rand, tier string, idx int) *core.Plan {
 	w["accMillis"] = int64(core.Pick(r, 0, 0, 0, 500, 999))
 	// a second signature by the same signer with its own expiry, verified by the same process in between
 	w["entry"] = int64(r.IntN(2)) // OCI or blob entry point
+	w["nb"] = int64(core.Pick(r, 0, 0, 0, 1, 2, 3)) // which certificate (leaf / intermediate / root) becomes valid only 10 minutes after signing
 	w["expiryB"] = int64(r.IntN(3))
 	w["expiryAction"] = int64(core.Pick(r, 0, 0, 1)) // log (both validations always reported) / enforce (a failed expiry ends the verification)
 	n := 1 + r.IntN(6)
@@ -68,6 +69,9 @@ func (c06) Gen(r *rand.Rand, tier string, idx int) *core.Plan {
 		b := int64(r.IntN(5))
 		if r.IntN(6) == 0 {
 			b = 6
+		}
+		if w["nb"] != 0 && r.IntN(3) == 0 {
+			b = 7 // around the instant the late certificate becomes valid
 		}
 		p.Ops = append(p.Ops, core.Op{Kind: "verify-at", I: []int64{b, int64(r.IntN(5)), int64(core.Pick(r, 0, 0, 1))}})
 	}
@@ -92,8 +96,13 @@ func (l c06) Exec(env *core.Env) *core.Result {
 		rt.Sleep(1234 * time.Millisecond)
 		t0 := time.Now()
 		ends := []time.Time{t0.Add(c06Ends[w["leafEnd"]%3]).Truncate(time.Second), t0.Add(c06Ends[w["interEnd"]%3]).Truncate(time.Second), t0.Add(c06Ends[w["rootEnd"]%3]).Truncate(time.Second)}
+		// one certificate of the chain may be not yet valid when the signature is made and first verified
+		notYet := t0.Add(10 * time.Minute).Truncate(time.Second)
 		chain := world.NewChain("c06", 1, world.EC256, func(level int, o *world.CertOpts) {
 			o.NotBefore = t0.Add(-time.Hour).Truncate(time.Second)
+			if w["nb"] == int64(level)+1 {
+				o.NotBefore = notYet
+			}
 			o.NotAfter = ends[level]
 		})
 		windows := chain.X509()
@@ -118,12 +127,21 @@ func (l c06) Exec(env *core.Env) *core.Result {
 		// skew: place genTime relative to the tightest window
 		var gen time.Time
 		var signedTime time.Time
+		// notation-core-go refuses to emit a signature whose claimed signing time lies outside a certificate's
+		// window; with a late certificate the signer claims the first second of the common window (its clock
+		// runs ahead). For notary.x509 that claim is not authentic and decides nothing.
+		claimed := func(now time.Time) time.Time {
+			if w["nb"] != 0 {
+				return notYet.Add(time.Second)
+			}
+			return now
+		}
 		sign := func() ([]byte, error) {
-			signAt := time.Now()
+			signAt := claimed(time.Now())
 			if expDur > 0 {
 				expiry = signAt.Truncate(time.Second).Add(expDur)
 			}
-			viaSigner := w["viaSigner"] == 1 && scheme == signature.SigningSchemeX509 && (counter == 1)
+			viaSigner := w["viaSigner"] == 1 && scheme == signature.SigningSchemeX509 && (counter == 1) && w["nb"] == 0
 			if viaSigner {
 				// the library's own signer with the TSA as Timestamper
 				s := world.NewSigner(chain)
@@ -229,7 +247,7 @@ func (l c06) Exec(env *core.Env) *core.Result {
 		}
 		sigA := &c06Sig{sig, expiry, signedTime, gen, counter}
 		// the second signature: same signer and scheme, no countersignature, its own expiry
-		sigB := &c06Sig{signedTime: time.Now(), counter: 0}
+		sigB := &c06Sig{signedTime: claimed(time.Now()), counter: 0}
 		if d := []time.Duration{0, time.Hour, 3 * time.Hour}[w["expiryB"]%3]; d > 0 {
 			sigB.expiry = sigB.signedTime.Truncate(time.Second).Add(d + 7*time.Minute)
 		}
@@ -291,6 +309,8 @@ func (l c06) Exec(env *core.Env) *core.Result {
 					return sigB.expiry
 				}
 				return ends[0]
+			case 7:
+				return notYet
 			}
 			return t0.Add(200000 * time.Hour)
 		}
@@ -301,13 +321,13 @@ func (l c06) Exec(env *core.Env) *core.Result {
 		var instants []c06Instant
 		for _, op := range p.Ops {
 			t := boundary(op.Int(0))
-			if op.Int(0) < 4 || op.Int(0) == 6 {
+			if op.Int(0) < 4 || op.Int(0) == 6 || op.Int(0) == 7 {
 				t = t.Add(c06Deltas[op.Int(1)%5])
 			}
 			instants = append(instants, c06Instant{t, int(op.Int(2) % 2)})
 		}
 		sort.SliceStable(instants, func(i, j int) bool { return instants[i].at.Before(instants[j].at) })
-		config := fmt.Sprintf("scheme=%d fmt=%d ends=%d/%d/%d expiry=%d tsaMode=%d counter=%d skew=%d acc=%d.%03d rogue=%d", w["scheme"], w["format"], w["leafEnd"], w["interEnd"], w["rootEnd"], w["expiry"], tsaMode, counter, w["skew"], w["accuracy"], w["accMillis"], w["rogue"])
+		config := fmt.Sprintf("nb=%d scheme=%d fmt=%d ends=%d/%d/%d expiry=%d tsaMode=%d counter=%d skew=%d acc=%d.%03d rogue=%d", w["nb"], w["scheme"], w["format"], w["leafEnd"], w["interEnd"], w["rootEnd"], w["expiry"], tsaMode, counter, w["skew"], w["accuracy"], w["accMillis"], w["rogue"])
 		for _, inst := range instants {
 			at := inst.at
 			if d := at.Sub(time.Now()); d > 0 {
